@@ -41,6 +41,32 @@ func (x *Exec) call(st *State, fr *Frame, site ssa.Instruction, c *ssa.CallCommo
 		x.callFunc(st, fr, site, fn, fv.Bindings, args, where, k)
 		return
 	}
+	// a function stored in a struct field may have a contract of its own:
+	// "func field T.f" (assumed for every function ever stored there)
+	if fv.Src != nil && fv.Src.contT != nil {
+		if n, ok := fv.Src.contT.(*types.Named); ok {
+			fname := fieldNameAt(x.tc, fv.Src.contT, fv.Src.Off)
+			key := "field " + n.Obj().Name() + "." + fname
+			pkg := ""
+			if n.Obj().Pkg() != nil {
+				pkg = n.Obj().Pkg().Path()
+			}
+			if fc, ok := x.E.contracts[pkg+"::"+key]; ok {
+				sig := c.Signature()
+				var names []string
+				for i := 0; i < sig.Params().Len(); i++ {
+					nm := sig.Params().At(i).Name()
+					if nm == "" || nm == "_" {
+						nm = fmt.Sprintf("p%d", i)
+					}
+					names = append(names, nm)
+				}
+				x.atCallAsserts(st, fr, key, names, args, where)
+				x.modularCall(st, fr, site, fc, nil, sig, names, args, where, k)
+				return
+			}
+		}
+	}
 	// dynamic call of an unknown function value
 	x.unknownCall(st, fr, "dynamic call "+c.Value.Name(), c.Signature(), where, k)
 }
@@ -207,6 +233,9 @@ func (x *Exec) modularCall(st *State, fr *Frame, site ssa.Instruction, fc *FuncC
 	var res Val
 	results := sig.Results()
 	res = x.freshVal("r."+sanitize(shortName(cname)), results, post)
+	if results.Len() == 1 {
+		res.T = results.At(0).Type()
+	}
 	penv := &Env{x: x, st: post, old: pre, vars: map[string]Val{}, pkgPath: env.pkgPath, fc: fc, ghostScope: map[string]*Term{}}
 	for n, v := range env.vars {
 		penv.vars[n] = v
@@ -581,28 +610,73 @@ func (x *Exec) appendBuiltin(st *State, fr *Frame, s, t Val, tT types.Type, wher
 	tl := t.L[2]
 	tIsString := isString(t.T)
 	newLen := Add(s.L[2], tl)
-	// abstract: result is a fresh backing store holding old ++ new
-	// (the in-place alternative is observable only through aliasing, which
-	// contracts here never rely on; recorded as an assumption)
-	x.E.noteAssumption("append is modelled as always reallocating (aliasing between the argument and result of append is not observable in the verified functions)")
+	// the appended elements, read before any write
+	srcOf := func(st *State, i int, l leafInfo) *Term {
+		key := hkey("M", typeKey(el), i)
+		arr := x.heapArr(st, key, x.memSort(l))
+		if tIsString {
+			return Select(x.strMem(st), t.L[0])
+		}
+		return Select(arr, t.L[0])
+	}
+	fits := Le(newLen, s.L[3])
+	if x.tc.bv {
+		fits = FalseT // bit-vector mode functions do not append
+	}
+	// case A: the capacity suffices: the elements are written in place, behind
+	// the current length, into the existing backing store (visible to every
+	// slice sharing it)
+	if !fits.IsFalse() && !x.dry {
+		stA := st
+		if !fits.IsTrue() {
+			stA = st.clone()
+			stA.assume(fits)
+			stA.trace = append(stA.trace, "append:inplace")
+		}
+		tail := Val{T: s.T, L: []*Term{s.L[0], Add(s.L[1], s.L[2]), tl, Sub(s.L[3], s.L[2])}}
+		x.frameCheckRange(stA, fr, typeKey(el), tail, where)
+		for i, l := range x.tc.leaves(el) {
+			key := hkey("M", typeKey(el), i)
+			arr := x.heapArr(stA, key, x.memSort(l))
+			oldInner := Select(arr, s.L[0])
+			srcInner := srcOf(stA, i, l)
+			if tl.IsConst() && tl.C.Int64() <= 8 {
+				ni := oldInner
+				for j := int64(0); j < tl.C.Int64(); j++ {
+					ni = Store(ni, Add(Add(s.L[1], s.L[2]), IntC(j)), Select(srcInner, Add(t.L[1], IntC(j))))
+				}
+				stA.heap[key] = Store(arr, s.L[0], ni)
+			} else {
+				na := x.E.fresh("app", oldInner.S)
+				stA.heap[key] = Store(arr, s.L[0], na)
+				j := x.E.fresh("j", IntS)
+				stA.assume(Forall([]*Term{j}, Implies(And(Le(IntC(0), j), Lt(j, tl)), Eq(Select(na, Add(Add(s.L[1], s.L[2]), j)), Select(srcInner, Add(t.L[1], j))))))
+				kk := x.E.fresh("k", IntS)
+				stA.assume(Forall([]*Term{kk}, Implies(Or(Lt(kk, Add(s.L[1], s.L[2])), Ge(kk, Add(Add(s.L[1], s.L[2]), tl))), Eq(Select(na, kk), Select(oldInner, kk)))))
+			}
+			x.effHeap(key, s.L[0])
+		}
+		k(stA, Val{T: s.T, L: []*Term{s.L[0], s.L[1], newLen, s.L[3]}})
+		if fits.IsTrue() {
+			return
+		}
+		st.assume(Not(fits))
+		st.trace = append(st.trace, "append:realloc")
+	}
+	// case B: reallocation into a fresh backing store holding old ++ new
 	ref := x.allocRef(st)
 	ncap := x.E.fresh("appcap", IntS)
-	st.assume(And(Le(newLen, ncap), Le(ncap, BigC(Pow2(40)))))
+	st.assume(And(Le(newLen, ncap), Le(ncap, BigC(Pow2(48)))))
 	res := Val{T: s.T, L: []*Term{ref, x.idxConst(0), newLen, ncap}}
 	for i, l := range x.tc.leaves(el) {
 		key := hkey("M", typeKey(el), i)
 		arr := x.heapArr(st, key, x.memSort(l))
 		oldInner := Select(arr, s.L[0])
+		srcInner := srcOf(st, i, l)
 		na := x.E.fresh("app", oldInner.S)
 		st.heap[key] = Store(arr, ref, na)
 		kk := x.E.fresh("k", IntS)
 		st.assume(Forall([]*Term{kk}, Implies(And(Le(IntC(0), kk), Lt(kk, s.L[2])), Eq(Select(na, kk), Select(oldInner, Add(s.L[1], kk))))))
-		var srcInner *Term
-		if tIsString {
-			srcInner = Select(x.strMem(st), t.L[0])
-		} else {
-			srcInner = Select(arr, t.L[0])
-		}
 		if tl.IsConst() && tl.C.Int64() <= 8 {
 			for j := int64(0); j < tl.C.Int64(); j++ {
 				st.assume(Eq(Select(na, Add(s.L[2], IntC(j))), Select(srcInner, Add(t.L[1], IntC(j)))))
